@@ -1,7 +1,11 @@
 """C08 — importing an EDS/DCF yields exactly the described object dictionary."""
 import json
-import canopen
+import os
 import random
+import shutil
+import tempfile
+
+import canopen
 
 from props import eds_common as E
 
@@ -22,6 +26,9 @@ THEOREMS = [
     "Canopen.C08.lookups_members",
     "Canopen.C08.lookups_compact",
     "Canopen.C08.compact_expanded",
+    "Canopen.C08.compact_members_complete",
+    "Canopen.C08.compact_imported_complete",
+    "Canopen.C08.import_history",
     "Canopen.C08.tables_as_modelled",
 ]
 FINGERPRINT = [
@@ -58,11 +65,16 @@ ASSUMPTIONS = [
     "no '.' in names, values in the range of their type, limits only on integer types, a name list names "
     "every sub-index 1..NrOfEntries, texts without leading/trailing blanks, ';' or line breaks",
 ]
-RULE = ("ops: imp <file> <node id> <parsed document> w <description> (text written by the harness's own "
+RULE = ("ops: imp <file> <node id> <parsed document> w <description> <probes> (text written by the harness's own "
         "CiA 306 writer from a random dictionary description: all 25 data types, 6 access types, "
         "dec/hex/octal/binary spellings, $NODEID forms, two's-complement limits for all 8 signed widths at "
-        "the range ends, compact arrays with/without name list, sub/Sub, missing ObjectType, DOMAIN, "
-        "comments, device info; node id explicit / from file / absent), imp … t <text> (mutated and "
+        "the range ends, compact arrays of 1..254 entries (biased to 1, 2, 127, 128, 253, 254) with no, a partial "
+        "or a full name list, sub/Sub, missing ObjectType, DOMAIN, comment blocks of 0..30 lines with Lines in "
+        "any base, device info; node id explicit / from file / absent; <probes> = sub-indices every array is asked "
+        "for: 2, 254, 255, 256, and n, n+1, n/2 of every compact array, the first entry without a name, the one "
+        "after the last listed member), imph <k> {<file> <node id> <document> w <description> <probes>}*k (a "
+        "history: each step (re)writes its file - the same names again with other dictionaries - and imports it "
+        "by path; every step is judged against its own description), imp … t <text> (mutated and "
         "hand-written malformed texts, correspondence only), conv/lim (one value or limit through a "
         "one-object file) and int0/int10/fromhex/float/lines (CPython primitives the model transcribes); "
         "non-trivial = the implementation returned a dictionary or a value")
@@ -75,19 +87,62 @@ def one_var_text(dt, key, s, extra=""):
     return f"[2000]\nParameterName=x\nDataType={dt}\nAccessType=rw\n{key}={s}\n{extra}"
 
 
+WORK = os.path.join(os.path.dirname(os.path.dirname(os.path.dirname(os.path.abspath(__file__)))), ".work")
+
+
+def op_probes(a, i):
+    return E.dec_probes(a[i]) if len(a) > i else E.DEFAULT_PROBES
+
+
+def step_text(kind, payload):
+    return E.write_eds(json.loads(E.unhx(payload))) if kind == "w" else E.unhx(payload)
+
+
+def run_history(a):
+    """imph: every step (re)writes its file in a directory of this operation's own and imports it by path"""
+    k = int(a[1])
+    if k < 1 or len(a) != 2 + 6 * k:
+        return "bad-op"
+    steps = [a[2 + 6 * i:8 + 6 * i] for i in range(k)]
+    os.makedirs(WORK, exist_ok=True)
+    d = tempfile.mkdtemp(dir=WORK, prefix="c08h")
+    outs = []
+    try:
+        for fn, nid, doc, kind, payload, pr in steps:
+            fname, nid = E.unhx(fn), (None if nid == "none" else int(nid))
+            if os.path.basename(fname) != fname:
+                return "HARNESS a history step names a file outside the operation's directory"
+            text = step_text(kind, payload)
+            if E.enc_doc(E.parse_text(text)) != doc:
+                return "HARNESS document in the op is not the parse of its text"
+            path = os.path.join(d, fname)
+            with open(path, "w") as f:
+                f.write(text)
+            try:
+                outs.append(E.show_od(canopen.import_od(path, nid), E.dec_probes(pr)))
+            except Exception:
+                outs.append("err")
+    finally:
+        shutil.rmtree(d, ignore_errors=True)
+    return "ok " + " # ".join(outs)
+
+
 def run_impl(op):
     a = op.split(" ")
     kind = a[0]
+    if kind == "imph":
+        return run_history(a)
     if kind == "imp":
         fname, nid = E.unhx(a[1]), (None if a[2] == "none" else int(a[2]))
-        text = E.write_eds(json.loads(E.unhx(a[5]))) if a[4] == "w" else E.unhx(a[5])
+        text = step_text(a[4], a[5])
+        probes = op_probes(a, 6)
         if E.enc_doc(E.parse_text(text)) != a[3]:
             return "HARNESS document in the op is not the parse of its text"
         try:
             od = E.import_text(text, fname, nid)
         except Exception:
             return "err"
-        shown = E.show_od(od)
+        shown = E.show_od(od, probes)
         # the same file given to a node constructor with the same explicit node id must yield the same dictionary
         if nid is not None or od.node_id is not None:
             for ctor in (canopen.RemoteNode, canopen.LocalNode):
@@ -95,7 +150,7 @@ def run_impl(op):
                     via = ctor(nid, E.NamedStringIO(text, fname)).object_dictionary
                 except Exception:
                     continue      # e.g. a random dictionary with a non-record object in the PDO parameter range
-                if E.show_od(via) != shown:
+                if E.show_od(via, probes) != shown:
                     return f"NODE-CTOR {ctor.__name__}(node_id, file) built a different dictionary than import_od(file, node_id)"
         return shown
     s = E.unhx(a[-1])
@@ -141,7 +196,25 @@ def oracle(op, out):
     if out.startswith("NODE-CTOR"):
         return "nodector: " + out[10:]
     if a[0] == "imp" and a[4] == "w":
-        return E.check_import(json.loads(E.unhx(a[5])), out)
+        return E.check_import(json.loads(E.unhx(a[5])), out, op_probes(a, 6))
+    if a[0] == "imph":
+        if not out.startswith("ok "):
+            return None if out == "bad-op" else f"history: {out}"
+        k = int(a[1])
+        steps = [a[2 + 6 * i:8 + 6 * i] for i in range(k)]
+        outs = out[3:].split(" # ")
+        if len(outs) != k:
+            return f"history of {k} steps gave {len(outs)} answers"
+        for i, (st, o) in enumerate(zip(steps, outs)):
+            if st[3] != "w":
+                continue
+            spec = json.loads(E.unhx(st[4]))
+            r = E.check_import(spec, o, E.dec_probes(st[5]))
+            if r:
+                earlier = [j + 1 for j in range(i) if steps[j][0] == st[0]]
+                return (f"history step {i + 1} of {k} (file {E.unhx(st[0])!r}"
+                        + (f", written before in step {earlier}" if earlier else "") + f"): {r}")
+        return None
     if a[0] == "lim":
         dt = int(a[1], 0)
         s = E.unhx(a[2])
@@ -185,17 +258,19 @@ def signature(op, what):
     a = op.split(" ")
     if a[0] == "lim":
         return f"lim:{a[1]}:signed-limit" if "two's complement" in what else f"lim:{a[1]}:limit"
-    if a[0] == "imp":
+    if a[0] in ("imp", "imph"):
         for key, cls in (("min is", "limit-min"), ("max is", "limit-max"), ("def is", "default"),
                          ("val is", "value"), ("not imported", "rejected"), ("objects differ", "objects"),
-                         ("sub-indices", "subindices"), ("by name", "lookup"), ("'Parent.Child'", "lookup"),
+                         ("is not expanded", "compact"), ("expanded sub-index", "compact"),
+                         ("looking up sub-index", "lookup"), ("sub-indices", "subindices"),
+                         ("by its name", "lookup"), ("by name", "lookup"), ("'Parent.Child'", "lookup"),
                          ("node id", "nodeid"), ("bit rate", "bitrate"), ("comments", "comments"),
                          ("device information: granularity", "devinfo-granularity"),
                          ("device information", "devinfo"), ("allowed bit rates", "bauds"),
                          ("expanded", "compact")):
             if key in what:
-                return f"imp:{cls}"
-        return "imp:field"
+                return f"{a[0]}:{cls}"
+        return f"{a[0]}:field"
     return f"{a[0]}:value"
 
 
@@ -206,21 +281,72 @@ def nontrivial(op, out):
 def classify(op, out):
     a = op.split(" ")
     k = a[0] + (":" + a[4] if a[0] == "imp" else "")
+    if a[0] == "imph":
+        return f"imph:{a[1]}:{'ok' if out.startswith('ok') and ' err' not in out and '# err' not in out else 'err'}"
     return f"{k}:{'ok' if out.startswith('ok') else 'err'}"
 
 
 # ---- shrinking --------------------------------------------------------------------------------------
+def step_parts(sp):
+    """the six tokens of a history step; the file of a step is a plain name"""
+    return E.spec_to_op_parts(sp)
+
+
 def shrink_candidates(op):
     a = op.split(" ")
+    if a[0] == "imph":
+        k = int(a[1])
+        steps = [a[2 + 6 * i:8 + 6 * i] for i in range(k)]
+        for i in range(k):                       # drop a step
+            if k > 1:
+                rest = steps[:i] + steps[i + 1:]
+                yield " ".join(["imph", str(k - 1)] + [t for st in rest for t in st])
+        for i, st in enumerate(steps):           # a smaller dictionary in one step
+            if st[3] != "w":
+                continue
+            for sp in spec_shrinks(json.loads(E.unhx(st[4]))):
+                try:
+                    new = step_parts(sp)
+                except Exception:
+                    continue
+                yield " ".join(["imph", str(k)] + [t for x in steps[:i] + [new] + steps[i + 1:] for t in x])
+        return
     if a[0] != "imp" or a[4] != "w":
         return
-    spec = json.loads(E.unhx(a[5]))
-
-    def emit(sp):
+    for sp in spec_shrinks(json.loads(E.unhx(a[5]))):
         try:
-            return "imp " + " ".join(E.spec_to_op_parts(sp))
+            yield "imp " + " ".join(E.spec_to_op_parts(sp))
         except Exception:
-            return None
+            continue
+
+
+def spec_shrinks(spec):
+    """smaller descriptions"""
+    def emit(sp):
+        return sp
+    c = spec.get("comments")
+    if c is not None and c["lines"]:
+        for keep in (c["lines"][:len(c["lines"]) // 2], c["lines"][:-1], c["lines"][1:]):
+            sp = dict(spec)
+            sp["comments"] = {"lines": keep, "lines_t": str(len(keep))}
+            yield sp
+    for i, o in enumerate(spec["objs"]):
+        if o["kind"] == "compact":
+            cands = []
+            if o.get("names"):
+                m = len(o["names"])
+                for m2 in (1, m // 2, m - 1):
+                    if 1 <= m2 < m:
+                        cands.append(dict(o, names=o["names"][:m2], n=max(1, min(o["n"], m2 + (o["n"] - m)))))
+                cands.append(dict(o, names=None))
+            for n2 in (1, 2, o["n"] // 2, o["n"] - 1):
+                if 1 <= n2 < o["n"] and (not o.get("names") or n2 >= len(o["names"])):
+                    cands.append(dict(o, n=n2))
+            for o2 in cands:
+                o2["ntext"] = str(o2["n"])
+                sp = dict(spec)
+                sp["objs"] = spec["objs"][:i] + [o2] + spec["objs"][i + 1:]
+                yield sp
     for i in range(len(spec["objs"])):
         sp = dict(spec)
         sp["objs"] = spec["objs"][:i] + spec["objs"][i + 1:]
@@ -418,6 +544,24 @@ HAND_TEXTS = [
                     "[2000Name]\nNrOfEntries=2\n1=r\n2=Number of entries\n"),
     ("x.eds", None, "[2000]\nParameterName=r\nObjectType=8\nCompactSubObj=4\nDataType=5\nAccessType=rw\n"
                     "[2000Namesake]\nNrOfEntries=1\n1=q\n"),
+    # CompactSubObj counts at and beyond the ends of the range, odd spellings (the importer does not read the count)
+    ("x.eds", None, "[2000]\nParameterName=r\nObjectType=8\nCompactSubObj=0\nDataType=5\nAccessType=rw\n"),
+    ("x.eds", None, "[2000]\nParameterName=r\nObjectType=8\nCompactSubObj=0xFE\nDataType=5\nAccessType=rw\n"),
+    ("x.eds", None, "[2000]\nParameterName=r\nObjectType=8\nCompactSubObj=255\nDataType=5\nAccessType=rw\n"),
+    ("x.eds", None, "[2000]\nParameterName=r\nObjectType=8\nCompactSubObj=256\nDataType=5\nAccessType=rw\n"),
+    ("x.eds", None, "[2000]\nParameterName=r\nObjectType=8\nCompactSubObj=\nDataType=5\nAccessType=rw\n"),
+    ("x.eds", None, "[2000]\nParameterName=r\nObjectType=8\nCompactSubObj=many\nDataType=5\nAccessType=rw\n"),
+    ("x.eds", None, "[2000]\nParameterName=r\nObjectType=8\nCompactSubObj=254\nDataType=5\nAccessType=rw\n"
+                    "[2000Name]\nNrOfEntries=255\n" + "".join(f"{i}=n{i}\n" for i in range(1, 256))),
+    ("x.eds", None, "[2000]\nParameterName=r\nObjectType=8\nCompactSubObj=3\nDataType=5\nAccessType=rw\n"
+                    "[2000Name]\nNrOfEntries=0x2\n1=a\n2=b\n"),
+    # comment blocks: ten and more lines, Lines in other bases, more / fewer lines than announced, gaps
+    ("x.dcf", None, "[Comments]\nLines=12\n" + "".join(f"Line{i}=c{i}\n" for i in range(1, 13))),
+    ("x.dcf", None, "[Comments]\nLines=0xC\n" + "".join(f"Line{i}=c{i}\n" for i in range(12, 0, -1))),
+    ("x.dcf", None, "[Comments]\nLines=0b1010\n" + "".join(f"Line{i}=c{i}\n" for i in range(1, 13))),
+    ("x.dcf", None, "[Comments]\nLines=10\n" + "".join(f"Line{i}=c{i}\n" for i in range(1, 10))),
+    ("x.dcf", None, "[Comments]\nLines=2\nLine1=a\nLine02=b\nLine2=c\nLine10=d\n"),
+    ("x.dcf", None, "[Comments]\nLines=010\nLine1=a\n"),
     # duplicates of index / name
     ("x.eds", None, "[2000]\nParameterName=a\nDataType=5\nAccessType=rw\n[2001]\nParameterName=a\nDataType=6\nAccessType=ro\n"),
     ("x.eds", None, "[2000]\nParameterName=r\nObjectType=9\n[2000sub0]\nParameterName=a\nDataType=5\nAccessType=rw\n"
@@ -529,6 +673,9 @@ def gen_ops(tier, rng):
         except Exception:
             continue
         yield f"imp {E.hx(fname)} {'none' if nid is None else nid} {E.enc_doc(doc)} t {E.hx(text)}"
+    # histories: the same paths written and imported several times within this process -----------------------
+    for _ in range(60 if quick else 600):
+        yield rand_history(rng)
     # writer stream -------------------------------------------------------------------------------
     n_spec = 900 if quick else 6000
     specs = []
@@ -552,13 +699,66 @@ def gen_ops(tier, rng):
                 continue
             fname = rng.choice(["x.eds", "x.dcf", "x.eds", "y.EDS", "x.ed", "eds", "x.eds.txt"]) \
                 if rng.random() < 0.1 else "x.eds"
-            yield f"imp {E.hx(fname)} {parts[1]} {E.enc_doc(doc2)} t {E.hx(text)}"
+            yield f"imp {E.hx(fname)} {parts[1]} {E.enc_doc(doc2)} t {E.hx(text)} {parts[5]}"
+
+
+HISTORY_FILES = ["x.eds", "x.dcf", "dev.EDS", "a.b.Dcf"]
+
+
+def history_op(steps):
+    return "imph " + " ".join([str(len(steps))] + [t for sp in steps for t in step_parts(sp)])
+
+
+def rand_history(rng):
+    """2..4 imports by path within one process; the files are rewritten with other dictionaries in between"""
+    k = rng.choice([2, 2, 3, 4])
+    names = rng.sample(HISTORY_FILES, rng.choice([1, 1, 2]))
+    steps = []
+    for i in range(k):
+        sp = E.rand_spec(rng, size=rng.choice([0, 1, 2, 3]), suffix=names[0] if i < 2 else rng.choice(names))
+        steps.append(sp)
+    return history_op(steps)
+
+
+def fixed_var(name, dt=5, **kw):
+    v = {"name": name, "sub": 0, "dt": {"v": dt, "t": "0x%04X" % dt}, "acc": {"v": "rw", "t": "rw"}}
+    v.update(kw)
+    return v
+
+
+def fixed_spec(objs=(), comments=None, file="x.eds", nid=None):
+    sp = {"file": file, "nid_arg": nid, "lists": False, "objs": list(objs)}
+    if comments is not None:
+        sp["comments"] = {"lines": list(comments), "lines_t": str(len(comments))}
+    return sp
+
+
+def fixed_compact(index, n, names=None, **kw):
+    tv = fixed_var("Table %X" % index, 6, ot="0x8", pdo={"v": True, "t": "1"},
+                   **{"def": {"k": "num", "v": 0x1234, "t": "0x1234"}})
+    tv.update(kw)
+    return {"kind": "compact", "index": index, "sec": "%04X" % index, "namesec": "%04XName" % index, "n": n,
+            "ntext": str(n), "var": tv, "names": names, "cpos": 1}
 
 
 CORPUS = [
     # F7: limits of INTEGER24/40/48/56 were dropped before the fix
     f"lim 16 {E.hx('0x800000')}", f"lim 18 {E.hx('0xFFFFFFFFFF')}", f"lim 19 {E.hx('0x800000000000')}",
     f"lim 20 {E.hx('0x80000000000000')}", f"lim 16 {E.hx('-5')}",
+    # compact arrays of the largest size, with and without (partial) name list; of one entry
+    "imp " + " ".join(E.spec_to_op_parts(fixed_spec([fixed_compact(0x2100, 254), fixed_compact(0x2101, 1)]))),
+    "imp " + " ".join(E.spec_to_op_parts(fixed_spec([fixed_compact(0x2100, 254, ["a", "b", "c"]),
+                                                     fixed_compact(0x2101, 253)]))),
+    # comment blocks of 9, 10, 12 and 30 lines
+    *["imp " + " ".join(E.spec_to_op_parts(fixed_spec([], [f"line {i + 1} of {n}" for i in range(n)], "x.dcf")))
+      for n in (9, 10, 12, 30)],
+    # the same path imported again after it was rewritten
+    history_op([fixed_spec([{"kind": "var", "index": 0x2000, "sec": "2000",
+                             "var": fixed_var("first", 5, **{"def": {"k": "num", "v": 1, "t": "1"}})}],
+                           ["one"], "dev.dcf", 3),
+                fixed_spec([{"kind": "var", "index": 0x2001, "sec": "2001",
+                             "var": fixed_var("second", 6, **{"def": {"k": "num", "v": 2, "t": "2"}})}],
+                           ["two", "lines"], "dev.dcf", 4)]),
 ]
 
 LEVEL_TEXT = ("Lean 4 theorems over the parsed document, for every well-formed description in every spelling and every "
@@ -568,7 +768,9 @@ LEVEL_TEXT = ("Lean 4 theorems over the parsed document, for every well-formed d
               "variable field by field; whole-dictionary import_write (importEds (write sod) = dictionary assembled "
               "with add_object/add_member from the description, incl. device info, comments, bit rate, node id, dummy "
               "entries, records, arrays, compact arrays with/without name list); lookups by index / name / "
-              "'Parent.Child' reach the same object; compact expansion; model tied to the code by generated tables and "
+              "'Parent.Child' reach the same object; compact expansion of every announced entry up to 254, end to end; "
+              "histories of imports by path (each import is a function of the file's current content); model tied "
+              "to the code by generated tables and "
               "a differential run on texts from an independent Python writer plus mutated texts")
 LEVEL_NOTE = ("trusted: Lean kernel + propext/Classical.choice/Quot.sound; configparser's text layer (the driver gets the "
               "document parsed by the same parser), CPython int()/float()/bytes.fromhex/str.splitlines modelled for ASCII "
